@@ -2,11 +2,14 @@
 # tools_confirm.sh <ID>: confirm a seeded change independently in a scratch worktree (/tmp/confirm/repo):
 #   1. the patch applies and the workspace tests build;  2. the pinned baseline suite passes with it;
 #   3. the demonstration fails with the patch and passes without it.
-# Writes /tmp/mut/<ID>/out/confirm.txt
+# Writes $MUTDIR/<ID>/out/confirm.txt (MUTDIR defaults to /tmp/mut; CONFIRM_DIR, default /tmp/confirm, is the scratch lane;
+# PATCH overrides the patch file, e.g. one adapted to the current /repo main)
 ID=$1
-OUT=/tmp/mut/$ID/out
-W=/tmp/confirm/repo
-export CARGO_TARGET_DIR=/tmp/confirm/target CARGO_NET_OFFLINE=true
+OUT=${MUTDIR:-/tmp/mut}/$ID/out
+C=${CONFIRM_DIR:-/tmp/confirm}
+W=$C/repo
+PATCH=${PATCH:-$OUT/patch.diff}
+export CARGO_TARGET_DIR=$C/target CARGO_NET_OFFLINE=true
 [ -d $W ] || git -C /repo worktree add -q --detach $W main
 cd $W || exit 2
 git checkout -q --detach main && git reset -q --hard main && git clean -qfd crates
@@ -22,12 +25,12 @@ echo "demo=$demo crate=$crate pkg=$pkg"
 cp "$demo" $crate/ || exit 2
 echo "-- demo WITHOUT patch"
 cargo test -p $pkg --offline $feat --test $name 2>&1 | grep -E "^test result|^test .*(FAILED|ok)$|error(\[|:)" | head -12
-git apply $OUT/patch.diff || { echo "PATCH DOES NOT APPLY"; exit 2; }
+git apply $PATCH || { echo "PATCH DOES NOT APPLY"; exit 2; }
 echo "-- demo WITH patch"
 cargo test -p $pkg --offline $feat --test $name 2>&1 | grep -E "^test result|^test .*(FAILED|ok)$|error(\[|:)" | head -12
 rm -f $crate/$name.rs
 echo "-- baseline suite WITH patch"
-REPO=$W /verif/baseline.sh /tmp/confirm/junit 2>&1 | tail -4
+REPO=$W /verif/baseline.sh $C/junit 2>&1 | tail -4
 git checkout -q -- . ; git clean -qfd crates
 } > $OUT/confirm.txt 2>&1
 cat $OUT/confirm.txt
